@@ -21,6 +21,7 @@ package transport
 
 import (
 	"context"
+	"encoding/binary"
 	"errors"
 	"net"
 	"sync"
@@ -220,6 +221,8 @@ type reusableConn struct {
 
 	m           sync.Mutex
 	waitingResp chan *[]byte
+	waitingQid  uint16 // wire id of the query waitingResp belongs to
+	nextQid     uint16
 
 	closeOnce   sync.Once
 	closeNotify chan struct{}
@@ -260,6 +263,12 @@ func (c *reusableConn) readLoop() {
 		c.m.Lock()
 		respChan := c.waitingResp
 		c.waitingResp = nil
+		if respChan != nil && binary.BigEndian.Uint16(*resp) != c.waitingQid {
+			// Not the reply of the query we are waiting for. (e.g. a duplicated or
+			// late reply of a previous query.) We can't tell how many replies are
+			// still on the way. Treat it as an unexpected reply.
+			respChan = nil
+		}
 		c.m.Unlock()
 
 		if respChan == nil {
@@ -313,6 +322,9 @@ func (c *reusableConn) closeWithErrByTransport(err error) {
 	})
 }
 
+// exchange sends q (with length header) out and waits for its reply.
+// It overwrites the id of q with a per-connection wire id. The id of the
+// reply must match the wire id, it will be restored to the original id.
 func (c *reusableConn) exchange(ctx context.Context, q *[]byte) (*[]byte, error) {
 	respChan := make(chan *[]byte, 1)
 	c.m.Lock()
@@ -320,8 +332,14 @@ func (c *reusableConn) exchange(ctx context.Context, q *[]byte) (*[]byte, error)
 		c.m.Unlock()
 		panic("bug: reusableConn: concurrent exchange calls")
 	}
+	c.nextQid++
+	wireId := c.nextQid
+	c.waitingQid = wireId
 	c.waitingResp = respChan
 	c.m.Unlock()
+
+	orgId := binary.BigEndian.Uint16((*q)[2:])
+	binary.BigEndian.PutUint16((*q)[2:], wireId)
 
 	waitRespTimeout := reuseConnQueryTimeout
 	if c.t.testWaitRespTimeout > 0 {
@@ -336,11 +354,13 @@ func (c *reusableConn) exchange(ctx context.Context, q *[]byte) (*[]byte, error)
 
 	select {
 	case resp := <-respChan:
+		binary.BigEndian.PutUint16(*resp, orgId)
 		return resp, nil
 	case <-c.closeNotify:
 		// A reply may have been delivered right before the connection was closed.
 		select {
 		case resp := <-respChan:
+			binary.BigEndian.PutUint16(*resp, orgId)
 			return resp, nil
 		default:
 		}
